@@ -82,6 +82,9 @@ func (f *Fact) Pick(i int64, xs ...int64) int64 {
 }
 func (f *Fact) GetSub() *Sub { return f.P }
 
+// Two has two results (the engine cannot use it in an expression).
+func (f *Fact) Two() (int64, int64) { return 1, 2 }
+
 // HeavyOf is the pure function computed by Heavy.
 func HeavyOf(x int64) int64 { return x*3 + 1 }
 
